@@ -29,9 +29,9 @@ RULE = ('every expression tree with n operator nodes over the 13 operators '
         'non-trivial when its tree has >=2 operator nodes (a precedence or '
         'associativity decision is needed) and the reference judged it')
 BOUNDS = {
-    'quick': {'max_ops_full_alphabet': 3, 'renderings': 'all 8'},
+    'quick': {'max_ops_full_alphabet': 3, 'renderings': 'all 9'},
     'thorough': {'max_ops_full_alphabet': 4, 'n5_over': 'one operator per '
-                 'precedence class', 'renderings': 'all 8 for n<=3, 3 for '
+                 'precedence class', 'renderings': 'all 9 for n<=3, 3 for '
                  'n>=4'},
 }
 ASSUMPTIONS = [
@@ -50,6 +50,9 @@ RENDERINGS = (
     ('min-lit', 'lit', {}, ()),
     ('min-ref', 'ref', {}, ('leaf:ref',)),
     ('min-mixed', 'mixed', {}, ('lit:percent', 'lit:sci')),
+    # every leaf is a reference followed by a percent sign (cell = 100 * v):
+    # % binds tighter than every binary operator, so the leaf stays atomic
+    ('min-refpct', 'refpct', {}, ('leaf:ref', 'pct:on-reference')),
     ('full-lit', 'lit', {'full': True}, ('paren:full',)),
     ('leafparen-ref', 'ref', {'leafparens': True}, ('paren:leaf',
                                                      'leaf:ref')),
@@ -67,6 +70,8 @@ def leaf_fn(spelling, vec):
         return lambda i: exprs.plain(vec[i])
     if spelling == 'ref':
         return exprs.cellref
+    if spelling == 'refpct':
+        return lambda i: exprs.cellref(i) + '%'
     if spelling == 'mixed':
         def f(i):
             return (exprs.plain, exprs.percent, exprs.sci)[i % 3](vec[i])
@@ -130,6 +135,9 @@ def run_case(tree, vec, rnames, ctx):
         if spelling == 'ref':
             cells = {'Sheet1!' + exprs.cellref(i): v
                      for i, v in enumerate(vec)}
+        elif spelling == 'refpct':
+            cells = {'Sheet1!' + exprs.cellref(i): v * 100
+                     for i, v in enumerate(vec)}
         got = lib.eval_formula(text, cells, at=AT)
         key = 'C01/%s/v=%s/r=%s' % (tkey, ','.join(map(repr, vec)), rname)
         inputs = {'tree': tree, 'vec': list(vec), 'rendering': rname,
@@ -181,7 +189,8 @@ def replay(inputs, ctx):
     # metamorphic comparison has its partner
     names = [inputs['rendering']]
     fam = {r[0]: r[1] for r in RENDERINGS}
-    base = {'lit': 'min-lit', 'ref': 'min-ref', 'mixed': 'min-mixed'}[
+    base = {'lit': 'min-lit', 'ref': 'min-ref', 'mixed': 'min-mixed',
+            'refpct': 'min-refpct'}[
         fam[inputs['rendering']]]
     if base not in names:
         names.insert(0, base)
@@ -197,6 +206,8 @@ def selftest():
             t = exprs.minimal(tree, lambda i: 'x')
             assert t not in seen, (t, tree, seen[t])
             seen[t] = tree
+    for v in VALS_SMALL + tuple(x for vec in VECTORS for x in vec):
+        assert (v * 100) * 0.01 == v, v      # the refpct rendering is exact
     assert exprs.sci(0.5) == '5E-1' and exprs.sci(11) == '1.1E+1'
     assert exprs.percent(0.5) == '50%' and exprs.percent(7) == '700%'
     assert exprs.minimal(('bin', '^', ('neg', ('leaf', 0)), ('leaf', 1)),
